@@ -228,6 +228,9 @@ func checkC17(c *Ctx) {
 	checkDataAssertions(c, pk)
 	checkSchemaTypeInvariant(c, pk, reviewedHit["processSchema › index › param.Schema"])
 	checkCollectionPasses(c, pk)
+	checkPackageIdentity(c, "C17.R6.package-identity", pk)
+	checkNoopDeletes(c, "C17.R6.collection", pk)
+	checkSplitURL(c, pk)
 	checkResponsePrecedence(c, pk)
 
 	// ---- R2 regexp arity; R4 tagger agreement
@@ -824,4 +827,58 @@ func checkResponsePrecedence(c *Ctx, pk *packages.Package) {
 	if n == 0 {
 		c.Unk(rule, "codescan.setOpResponses.Parse › definition fallback", c.posOf(pk, fd.Pos()), "the `isDefinitionRef = true` fallback was not found (anchor)")
 	}
+}
+
+// checkSplitURL: a Contact / License line without a URL is a name: in splitURL, when the URL
+// pattern does not match, the text goes to the first result and the URL result stays empty.
+func checkSplitURL(c *Ctx, pk *packages.Package) {
+	rule := "C17.R6.collection"
+	fd := load.FuncDecl(pk, "splitURL")
+	if fd == nil || fd.Type.Results == nil || fd.Type.Results.NumFields() != 2 {
+		c.Anchor(rule, "codescan.splitURL", "not found (two results expected)")
+		return
+	}
+	info := pk.TypesInfo
+	var resNames []string
+	for _, fl := range fd.Type.Results.List {
+		for _, nm := range fl.Names {
+			resNames = append(resNames, nm.Name)
+		}
+	}
+	okFirst, okSecond, seen := false, true, false
+	goan.WalkGuards(info, fd.Body, func(n ast.Node, guards []goan.Lit, _ []ast.Stmt) {
+		noMatch := false
+		for _, g := range guards {
+			s := goan.ExprString(g.E)
+			if g.Pos && strings.Contains(s, "len(") && strings.Contains(s, "== 0") && !strings.Contains(s, "str") && !strings.Contains(s, "line") {
+				noMatch = true
+			}
+		}
+		if !noMatch {
+			return
+		}
+		switch x := n.(type) {
+		case *ast.AssignStmt:
+			if len(x.Lhs) == 1 && len(resNames) == 2 {
+				if goan.IsIdent(x.Lhs[0], resNames[0]) {
+					okFirst, seen = true, true
+				}
+				if goan.IsIdent(x.Lhs[0], resNames[1]) {
+					okSecond = false
+				}
+			}
+		case *ast.ReturnStmt:
+			if len(x.Results) == 2 {
+				seen = true
+				if s, isStr := goan.StringVal(info, x.Results[0]); !(isStr && s == "") {
+					okFirst = true
+				}
+				if s, isStr := goan.StringVal(info, x.Results[1]); !(isStr && s == "") {
+					okSecond = false
+				}
+			}
+		}
+	})
+	c.Check(seen && okFirst && okSecond, rule, "codescan.splitURL › a line without URL is a name, not a URL", c.posOf(pk, fd.Pos()), "no-match arm: text → first result, second result empty",
+		"when the URL pattern does not match, splitURL does not return (text, \"\"): `License: MIT` or `Contact: Name <email>` end up in the url field and the document is not valid Swagger")
 }
